@@ -241,7 +241,8 @@ def warm():
     corpus.warm_all(extract=True)
     for n in _pool:  # fill every lazy cache the same way in the zygote
         if not (n.startswith("var/aes") or "password" in n):  # encrypted PDFs install a one-way AES patch: never in the zygote
-            _extract_digest(n, _docs[n])
+            with K.cpu_guard(60):
+                _extract_digest(n, _docs[n])
     settings1 = _interp_settings()
     _WARM_RESIDUE = [(k, settings0[k], settings1[k]) for k in settings0 if settings0[k] != settings1[k]]  # reported by every run
     # instrumentation targets
